@@ -35,6 +35,8 @@ pub enum Op {
     SwapFiles { a: u64, b: u64 },
     CopyBlock { from: (u64, usize), to: (u64, usize) },
     SwapBlocks { a: (u64, usize), b: (u64, usize) },
+    /// makes a file LONGER than a WAL file is supposed to be
+    Extend { file: u64, bytes: Vec<u8> },
     Add(Extra),
 }
 
@@ -49,6 +51,7 @@ fn op_json(op: &Op) -> Value {
         Op::SwapFiles { a, b } => json!({"k": "swapfiles", "f": a, "o": 0, "n": b}),
         Op::CopyBlock { from, to } => json!({"k": "cpblock", "f": from.0, "o": from.1, "n": to.0 * 1000 + to.1 as u64}),
         Op::SwapBlocks { a, b } => json!({"k": "swapblocks", "f": a.0, "o": a.1, "n": b.0 * 1000 + b.1 as u64}),
+        Op::Extend { file, bytes } => json!({"k": "extend", "f": file, "o": 0, "n": bytes.len()}),
         Op::Add(extra) => match extra {
             Extra::File { name, .. } => json!({"k": "addfile", "f": -1, "o": 0, "n": name.len()}),
             Extra::Dir { name } => json!({"k": "adddir", "f": -1, "o": 0, "n": name.len()}),
@@ -80,6 +83,11 @@ fn apply(files: &mut BTreeMap<u64, FileImg>, extras: &mut Vec<Extra>, op: &Op) {
                 if *off < end {
                     img.data[*off..end].iter_mut().for_each(|byte| *byte = 0);
                 }
+            }
+        }
+        Op::Extend { file, bytes } => {
+            if let Some(img) = files.get_mut(file) {
+                img.data.extend_from_slice(bytes);
             }
         }
         Op::TruncateFile { file, len } => {
@@ -559,6 +567,31 @@ fn struct_cases(files: &BTreeMap<u64, FileImg>, rng: &mut Rng, count: usize, out
         vec![Op::Add(Extra::File { name: wal_name(last + 1), content: fake_header_block(rng) })],
         vec![Op::Add(Extra::File { name: wal_name(last + 2), content: garbage(rng, 4 * BLOCK) })],
     ];
+    // files LONGER than a WAL file: whole extra blocks (a copy of the first block of the log, of the
+    // file's own last block, garbage, zeros), a fraction of a block, many blocks - on the newest
+    // file, on the oldest, and on the file that becomes the newest once the newest is removed
+    {
+        let first_block: Vec<u8> = files[&first].data.iter().take(BLOCK).copied().collect();
+        let mut targets = vec![(last, false), (first, false)];
+        if numbers.len() >= 2 {
+            targets.push((numbers[numbers.len() - 2], true));
+        }
+        for (target, drop_newest) in targets {
+            let own_last: Vec<u8> = {
+                let data = &files[&target].data;
+                data[data.len().saturating_sub(BLOCK)..].to_vec()
+            };
+            let many: Vec<u8> = first_block.iter().cycle().take(6 * BLOCK).copied().collect();
+            for bytes in [first_block.clone(), own_last, garbage(rng, BLOCK), vec![0u8; BLOCK], garbage(rng, BLOCK / 2 + 3), many] {
+                let mut ops = Vec::new();
+                if drop_newest {
+                    ops.push(Op::RemoveFile { file: last });
+                }
+                ops.push(Op::Extend { file: target, bytes });
+                fixed.push(ops);
+            }
+        }
+    }
     // names of the right shape whose 20 digits do not fit a u64, or sit at its edge: as stray empty
     // files, as stray full-size files, and as the name of a copy of a real WAL file
     for digits in ["18446744073709551616", "18446744073709551617", "18446744073709551625", "20000000000000000000",
